@@ -1466,8 +1466,10 @@ class CallMixin:
         self.assume(z3.ForAll([k], z3.Implies(z3.And(k >= 0, k < n), z3.And(self.list_len(sub(k)) >= 0,
                     off(k + 1) == off(k) + self.list_len(sub(k))))), st)
         self.assume(self.list_len(r) == off(n), st)
-        self.assume(z3.ForAll([k, j], z3.Implies(z3.And(k >= 0, k < n, j >= 0, j < self.list_len(sub(k))),
-                    self.list_get(r, off(k) + j) == self.list_get(sub(k), j))), st)
+        # the position of an inner element lies inside the result (off is a sum of non-negative lengths: by induction, stated here)
+        self.assume(_forall_pat([k, j], z3.Implies(z3.And(k >= 0, k < n, j >= 0, j < self.list_len(sub(k))),
+                    z3.And(self.list_get(r, off(k) + j) == self.list_get(sub(k), j), off(k) >= 0, off(k) + j < self.list_len(r))),
+                    [self.list_get(sub(k), j)]), st)
         # every element of the result comes from some inner list
         ow = z3.Function("flat_outer!%d" % next(self.counter), z3.IntSort(), z3.IntSort())
         iw = z3.Function("flat_inner!%d" % next(self.counter), z3.IntSort(), z3.IntSort())
